@@ -175,7 +175,12 @@ class RegionMask:
             return cutout
 
         # cutout is always a copy for partial overlap
-        dtype = float if ~np.isfinite(fill_value) else data.dtype
+        if np.isfinite(fill_value):
+            dtype = data.dtype
+        else:
+            # a non-finite fill value needs (at least) a float array;
+            # complex data stay complex
+            dtype = np.result_type(data.dtype, float)
         cutout = np.zeros(self.shape, dtype=dtype)
         cutout[:] = fill_value
         cutout[slices_small] = data[slices_large]
